@@ -40,7 +40,7 @@ func init() {
 		Title: "CTEs, derived tables and subqueries equal staged evaluation",
 		Rule: "rapid draws a document (table t with scalar columns and a nested array column, flat table t2) and either a composed pipeline " +
 			"(WITH c AS (Qi) Qo(c); Qo((Qi) x); chains c1->c2->outer; a CTE referenced twice through a self-join, through FROM plus an " +
-			"IN-subquery, through a filtering CTE plus a join, or through a filtered FROM plus an aggregating subquery; FROM `c.items` on an array-valued CTE column) that must equal the staged evaluation over materialised intermediate " +
+			"IN-subquery, through a filtering CTE plus a join, or through a filtered FROM plus an aggregating subquery; FROM `c.items` on an array-valued CTE column; a third of the outer stages of every shape, aggregates included, end in LIMIT n [OFFSET m]) that must equal the staged evaluation over materialised intermediate " +
 			"results passed in as plain input, or a subquery form (select-item subquery on the row / on `<-` the enclosing document, also correlated with the outer row through `<-.col`; IN-subquery on the row and on the root, " +
 			"[NOT] EXISTS correlated with the outer row (outer columns by bare name or as `<-.col`) over nested arrays whose elements may lack keys; IN subqueries also with ORDER BY / LIMIT / OFFSET and in the plain one-column form; CTE names that shadow a table of the document) that must equal the standalone execution of the subquery text on that row (EXISTS: the " +
 			"reference 'some element satisfies p'). Non-trivial: inner result non-empty and the outer stage filters or projects it.",
@@ -62,7 +62,7 @@ func init() {
 			r.Labels = append(r.Labels, c.(*C07Case).Env.Labels()...)
 			return r
 		},
-		Quick:    2000,
+		Quick:    3000,
 		Thorough: 150000,
 	})
 }
@@ -192,6 +192,20 @@ func genInnerQuery(t *rapid.T, tb *Table, label string) (string, *Table) {
 // genOuterQuery draws Qo over a source with schema tb; prefix is "" or "x.". ordered reports whether
 // the result sequence is determined.
 func genOuterQuery(t *rapid.T, tb *Table, prefix string, label string) (string, bool) {
+	q, ord := genOuterQueryCore(t, tb, prefix, label)
+	if !strings.Contains(q, " LIMIT ") && rapid.IntRange(0, 2).Draw(t, label+".window") == 0 {
+		// a window on any outer shape (whole-table and grouped aggregates, plain and filtered projections): it cuts
+		// the rows the outer query produces, never the rows it reads from the named result. The engine's row order
+		// is a function of the source sequence, which is the same in both forms, so the comparison stays a sequence one
+		q += fmt.Sprintf(" LIMIT %d", rapid.IntRange(1, 3).Draw(t, label+".window.n"))
+		if rapid.IntRange(0, 2).Draw(t, label+".window.hasoff") == 0 {
+			q += fmt.Sprintf(" OFFSET %d", rapid.IntRange(0, 2).Draw(t, label+".window.off"))
+		}
+	}
+	return q, ord
+}
+
+func genOuterQueryCore(t *rapid.T, tb *Table, prefix string, label string) (string, bool) {
 	ref := func(c *Col) string { return prefix + c.Name }
 	where := ""
 	if rapid.IntRange(0, 2).Draw(t, label+".haswhere") != 0 {
@@ -246,7 +260,7 @@ func genOuterQuery(t *rapid.T, tb *Table, prefix string, label string) (string, 
 func genC07(t *rapid.T) any {
 	doc, sc := genC07Doc(t)
 	c := &C07Case{Doc: doc}
-	c.Form = rapid.SampledFrom([]string{"cte", "derived", "chain", "twice-join", "twice-insub", "twice-filter-join", "twice-filter-sub", "path", "sel-sub", "sel-sub-root", "sel-sub-root", "in-sub", "in-sub-root", "exists", "exists"}).Draw(t, "form")
+	c.Form = rapid.SampledFrom([]string{"cte", "derived", "derived", "chain", "twice-join", "twice-insub", "twice-filter-join", "twice-filter-sub", "path", "sel-sub", "sel-sub-root", "sel-sub-root", "in-sub", "in-sub-root", "exists", "exists"}).Draw(t, "form")
 	switch c.Form {
 	case "cte":
 		qi, sch := genInnerQuery(t, sc.tb, "i1")
@@ -529,6 +543,12 @@ func checkC07(c *C07Case) Result {
 		}
 		// inner result non-empty and the outer stage filters or projects it
 		lastQ := c.Stages[len(c.Stages)-1]
+		if strings.Contains(lastQ, " LIMIT ") {
+			res.Labels = append(res.Labels, "outer-window")
+			if strings.HasPrefix(lastQ, "SELECT COUNT(*)") {
+				res.Labels = append(res.Labels, "outer-window-over-whole-table-aggregate")
+			}
+		}
 		res.NonTrivial = firstLen > 0 && (strings.Contains(lastQ, " WHERE ") || !strings.HasPrefix(lastQ, "SELECT * FROM m"))
 		return res
 	case "sel-sub", "sel-sub-root":
